@@ -56,10 +56,27 @@ type NodeSpec struct {
 	// func / batch: how functions are attached: opt (constructor options) | builder (chained methods)
 	FnForm   string    `json:"fn_form,omitempty"`
 	Settings []Setting `json:"settings,omitempty"`
+	// Reconf is applied to the built node between the first and the second run
+	// (option functions applied to the embedded BaseNode, or builder methods).
+	Reconf []Setting `json:"reconf,omitempty"`
+
+	// func / batch: phases (letters of "pexf": prep, exec, post, fallback) for
+	// which another function - of the other style - is attached first and then
+	// replaced by the real one; the replaced function must never be called
+	// (last setting wins). DecoyForm: how the replaced one is attached.
+	Decoy     string `json:"decoy,omitempty"`
+	DecoyForm string `json:"decoy_form,omitempty"`
 
 	// batch
 	Hand      bool   `json:"hand,omitempty"`       // BatchNodeBuilder{BatchNode{CustomNode}} composed by hand: prep may return anything
 	PrepShape string `json:"prep_shape,omitempty"` // results | anys | ints | strings | single | nil
+
+	// batch: the post function is given as a generic function option
+	// (flyt.WithPostFunc / WithPostFuncAny passed to NewBatchNode) instead of the
+	// batch builder's WithPostFunc. Whether such a function is honoured is not
+	// fixed by any property; C18 only demands that the action is normalised
+	// either way, so the oracle accepts both readings.
+	OptPost bool `json:"opt_post,omitempty"`
 
 	// flow
 	Start int    `json:"start,omitempty"`
@@ -88,7 +105,9 @@ type Scn struct {
 	Ctx       CtxSpec     `json:"ctx,omitempty"`
 	Canceller *Canceller  `json:"canceller,omitempty"`
 	Twin      string      `json:"twin,omitempty"` // C19/C10/C17 differential: canonical | flat | otherstyle
-	Faulty    bool        `json:"faulty,omitempty"`
+	// OptPostIgnored: model reading in which a generic post option on a batch node is not used
+	OptPostIgnored bool `json:"-"`
+	Faulty         bool `json:"faulty,omitempty"`
 }
 
 func (sc *Scn) clone() *Scn {
@@ -112,9 +131,16 @@ type config struct {
 	Stop    bool
 }
 
-func (n *NodeSpec) config() config {
+func (n *NodeSpec) config() config { return n.configRun(0) }
+
+// configRun: the configuration in force during run r (Reconf applies from run 1 on).
+func (n *NodeSpec) configRun(r int) config {
 	c := config{Retries: 1}
-	for _, s := range n.Settings {
+	all := n.Settings
+	if r > 0 {
+		all = append(append([]Setting(nil), n.Settings...), n.Reconf...)
+	}
+	for _, s := range all {
 		switch s.Param {
 		case "retries":
 			c.Retries = s.Val
